@@ -82,6 +82,22 @@ func summarise(n datamodel.Node) string {
 			}
 			ents = append(ents, k+"="+v)
 		}
+		// the match is a map: what it lists it also resolves (to the same link)
+		for i := range ks {
+			k, _ := ks[i].AsString()
+			want := "?"
+			if l, err := vs[i].AsLink(); err == nil {
+				want = l.String()
+			}
+			v, err := n.LookupByString(k)
+			if err != nil {
+				ents = append(ents, fmt.Sprintf("!lookup(%q) of a listed entry fails: %v", k, err))
+				continue
+			}
+			if l, err := v.AsLink(); err != nil || l.String() != want {
+				ents = append(ents, fmt.Sprintf("!lookup(%q) gives another link than the listing", k))
+			}
+		}
 		sort.Strings(ents)
 		return "map:{" + strings.Join(ents, ",") + "}"
 	}
